@@ -40,13 +40,19 @@ def main(tier, only=None):
         "evaluation of # and ## is unspecified (C11 6.10.3.2p2), nothing claimed",
         "whether ill-formed replacement lists (`#` not followed by a parameter, `##` at an end) are diagnosed — e.g. "
         "`x ## #` is accepted silently (gcc rejects it): constraint violation, no token sequence prescribed",
-        "function-like rescanning across the invocation boundary, variadic forms (__VA_ARGS__, __VA_OPT__, `, ##`), "
-        "read_macro_args, stringification text (quote_string/join_tokens), arguments of more than one token",
+        "function-like rescanning across the invocation boundary, variadic forms beyond the __VA_OPT__ kernel (`, ##`), "
+        "read_macro_args, stringification of arguments beyond the kernels/stringize alphabet, arguments of more than one token",
     ]
     if want("hideset"):
         e1.run_set(chk, "c09/macro.c", [e1.H("h_hideset", "hideset/algebra", unwind=10, timeout=300),
                                          e1.H("h_expand_hideset", "hideset/expansion-gets-intersection-plus-name", unwind=10, timeout=600,
                                               desc="real expand_macro on `FM ( ) z` / `OM z` with symbolic hide sets on the macro token, the closing paren and the next token")], workers=2)
+    if want("kernels"):
+        chk.bounds += ["stringize: the real stringize() on 1..2 tokens of symbolic kind over { ab, \\, \"x\\n\", '\\\\', \"q\", + } with symbolic white space",
+                       "__VA_OPT__: the real subst() on `__VA_OPT__ ( x a ) y` with __VA_ARGS__ present/absent and x, y independently empty"]
+        e1.run_set(chk, "c09/strz.c", [e1.H("h_stringize", "kernels/stringize-escapes-only-in-literals", unwind=42, timeout=900, object_bits=12),
+                                        e1.H("h_vaopt", "kernels/va-opt-contents-substituted", unwind=14, timeout=600,
+                                             replace_calls=("preprocess2:stub_preprocess2",), native=False)], workers=2)
     if want("subst"):
         hs = []
         for j in range(nb):
